@@ -222,7 +222,24 @@ pub struct ProcResult<T> {
     pub reads: Vec<(String, Vec<u8>)>,
 }
 
+/// CPU time a simulated process may consume (operations take milliseconds)
 pub const WATCHDOG: Duration = Duration::from_secs(20);
+/// wall-clock backstop for a process that is blocked without consuming CPU
+pub const WATCHDOG_WALL: Duration = Duration::from_secs(300);
+
+fn thread_cpu_time(pt: libc::pthread_t) -> Option<Duration> {
+    unsafe {
+        let mut clk: libc::clockid_t = 0;
+        if libc::pthread_getcpuclockid(pt, &mut clk) != 0 {
+            return None;
+        }
+        let mut ts: libc::timespec = std::mem::zeroed();
+        if libc::clock_gettime(clk, &mut ts) != 0 {
+            return None;
+        }
+        Some(Duration::new(ts.tv_sec as u64, ts.tv_nsec as u32))
+    }
+}
 
 fn panic_message(p: Box<dyn std::any::Any + Send>) -> String {
     if let Some(s) = p.downcast_ref::<&str>() {
@@ -276,8 +293,29 @@ pub fn run_process<T: Send + 'static>(
             let _ = tx.send((r, ctx));
         })
         .expect("spawn simulated process");
-    let out = match rx.recv_timeout(WATCHDOG) {
-        Ok((r, ctx)) => {
+    // The watchdog counts the CPU time the process's thread has consumed, not wall-clock time:
+    // on a contended host an operation that takes milliseconds of CPU can take arbitrarily long
+    // on the wall, and a verdict must not depend on that. A thread that consumes no CPU at all
+    // (blocked for good) is given up after `WATCHDOG_WALL`.
+    let started = std::time::Instant::now();
+    let pt = {
+        use std::os::unix::thread::JoinHandleExt;
+        handle.as_pthread_t()
+    };
+    let received = loop {
+        match rx.recv_timeout(Duration::from_millis(500)) {
+            Ok(v) => break Some(v),
+            Err(std::sync::mpsc::RecvTimeoutError::Disconnected) => break None,
+            Err(std::sync::mpsc::RecvTimeoutError::Timeout) => {
+                let cpu = thread_cpu_time(pt);
+                if cpu.map(|c| c >= WATCHDOG).unwrap_or(false) || started.elapsed() >= WATCHDOG_WALL {
+                    break None;
+                }
+            }
+        }
+    };
+    let out = match received {
+        Some((r, ctx)) => {
             let _ = handle.join();
             let ctx = *ctx;
             let (exit, value) = if ctx.dead {
@@ -301,7 +339,7 @@ pub fn run_process<T: Send + 'static>(
                 reads: ctx.reads,
             }
         }
-        Err(_) => {
+        None => {
           abandoned.store(true, std::sync::atomic::Ordering::Relaxed);
           ProcResult {
             exit: Exit::Hung,
